@@ -187,7 +187,7 @@ where
     u.raw("""
 // A-tonic-conn-01: Connection::new (hyper client settings and the tower stack around Reconnect; not under contract) builds the
 // channel service with the given laziness; ServiceExt::ready_oneshot drives it to readiness and hands the same service back
-pub struct Endpoint { pub id: Ghost<int>, pub buffer_size: Option<usize>, pub executor: SharedExec, pub uri: EndpointType, pub connect_timeout: Option<Duration> }
+pub struct Endpoint { pub id: Ghost<int>, pub buffer_size: Option<usize>, pub executor: SharedExec, pub uri: EndpointType, pub connect_timeout: Option<Duration>, pub timeout: Option<Duration> }
 pub enum EndpointType { Uri(Uri), Uds(String) }
 pub struct Uri { pub id: Ghost<int> }
 pub struct Duration { pub secs: u64, pub sub: u32 }
@@ -203,17 +203,22 @@ impl Endpoint {
     #[verifier::external_body] pub fn http_connector(&self) -> (r: UserConnector<HttpConn>) { unimplemented!() }
     #[verifier::external_body] pub fn uds_connector(&self, p: &str) -> (r: UserConnector<UdsConn>) { unimplemented!() }
 }
+// what bounds a connection attempt made through a connector: nothing that tonic adds for a user connector as it is
+// (Endpoint::connector), the configured time for hyper_timeout's wrapper (A-hypertimeout-01: set_connect_timeout stores it)
+pub trait Bounded { spec fn bound(&self) -> Option<Duration>; }
+impl<C> Bounded for UserConnector<C> { open spec fn bound(&self) -> Option<Duration> { None } }
 pub mod hyper_timeout {
     use super::*;
-    pub struct TimeoutConnector<C> { pub c: C }
+    pub struct TimeoutConnector<C> { pub c: C, pub connect_timeout: Ghost<Option<Duration>> }
     impl<C> TimeoutConnector<C> {
-        #[verifier::external_body] pub fn new(c: C) -> (r: Self) { unimplemented!() }
-        #[verifier::external_body] pub fn set_connect_timeout(&mut self, d: Option<Duration>) { unimplemented!() }
+        #[verifier::external_body] pub fn new(c: C) -> (r: Self) ensures r.c == c, r.connect_timeout@ is None { unimplemented!() }
+        #[verifier::external_body] pub fn set_connect_timeout(&mut self, d: Option<Duration>) ensures final(self).c == old(self).c, final(self).connect_timeout@ == d { unimplemented!() }
     }
+    impl<C> Bounded for TimeoutConnector<C> { open spec fn bound(&self) -> Option<Duration> { self.connect_timeout@ } }
 }
 impl Copy for Duration {}
 impl Clone for Duration { fn clone(&self) -> Self { *self } }
-pub struct Connection { pub lazy: Ghost<bool>, pub endpoint: Ghost<Endpoint> }
+pub struct Connection { pub lazy: Ghost<bool>, pub endpoint: Ghost<Endpoint>, pub bound: Ghost<Option<Duration>> }
 // A-tower-20: tower::buffer::Buffer::pair turns a service into a cloneable handle on it plus the worker future that drives it;
 // SharedExec::execute spawns a future (an opaque call: that the worker runs is not stated)
 pub struct SharedExec { pub id: Ghost<int> }
@@ -230,17 +235,17 @@ impl Error { pub fn from_source(source: BoxError) -> (r: Error) ensures r.source
 pub mod upper { pub use super::Error; }
 impl Connection {
     #[verifier::external_body]
-    pub fn new<C>(connector: C, endpoint: Endpoint, is_lazy: bool) -> (r: Self) ensures r.lazy@ == is_lazy, r.endpoint@ == endpoint { unimplemented!() }
+    pub fn new<C: Bounded>(connector: C, endpoint: Endpoint, is_lazy: bool) -> (r: Self) ensures r.lazy@ == is_lazy, r.endpoint@ == endpoint, r.bound@ == connector.bound() { unimplemented!() }
     #[verifier::external_body]
     pub async fn ready_oneshot(self) -> (r: Result<Self, BoxError>) ensures r matches Ok(c) ==> c == self { unimplemented!() }
 }
 """)
-    gen = [lambda t: t.sub_code('R12', r'\bwhere\b[^{]*', ''), lambda t: t.sub_code('R12', r'crate::BoxError', 'BoxError')]
+    gen = [lambda t: t.sub_code('R12', r'\bwhere\b[^{]*', ''), lambda t: t.sub_code('R12', r'crate::BoxError', 'BoxError'), lambda t: t.sub_code('R12', r'<C>\(', '<C: Bounded>(')]
     u._emit('impl Connection {'); u._open_header = 'impl Connection {'
     u.fn(CN, 'connect', within='impl Connection', sig_edits=gen,
-         ensures=[Clause('L1_connect_builds_an_eager_channel_and_drives_it_to_readiness', 'r matches Ok(c) ==> !c.lazy@ && c.endpoint@ == endpoint')])
+         ensures=[Clause('L1_connect_builds_an_eager_channel_and_drives_it_to_readiness', 'r matches Ok(c) ==> !c.lazy@ && c.endpoint@ == endpoint && c.bound@ == connector.bound()')])
     u.fn(CN, 'lazy', within='impl Connection', sig_edits=gen,
-         ensures=[Clause('L2_lazy_builds_a_lazy_channel', 'r.lazy@ && r.endpoint@ == endpoint')])
+         ensures=[Clause('L2_lazy_builds_a_lazy_channel', 'r.lazy@ && r.endpoint@ == endpoint && r.bound@ == connector.bound()')])
     u.close('}')
     # ---- Channel::{new, connect}: the public constructors pick lazy / eager (channel/mod.rs) ----
     CH = 'tonic/src/transport/channel/mod.rs'
@@ -250,23 +255,26 @@ impl Connection {
     u._emit('impl Channel {'); u._open_header = 'impl Channel {'
     u.fn(CH, 'new', within='impl Channel', sig_edits=chg, body_edits=chg, display='Channel::new',
          closures={0: dict(params='e: BoxError', ret='(x: Error)', ensures=['x.source == e'])} if False else None,
-         ensures=[Clause('H1_a_channel_made_without_connecting_is_lazy', 'r.svc.wraps@.lazy@ && r.svc.wraps@.endpoint@ == endpoint')])
+         ensures=[Clause('H1_a_channel_made_without_connecting_is_lazy', 'r.svc.wraps@.lazy@ && r.svc.wraps@.endpoint@ == endpoint && r.svc.wraps@.bound@ == connector.bound()')])
     u.fn(CH, 'connect', within='impl Channel', sig_edits=chg, display='Channel::connect',
          body_edits=chg + [lambda t: t.sub_code('R3', r'\.map_err\(Error::from_source\)', '.map_err(|e| Error::from_source(e))')],
          closures={0: dict(params='e: BoxError', ret='(x: Error)', ensures=['x.source == e'])},
-         ensures=[Clause('H2_a_connected_channel_is_eager_so_its_first_failure_was_reported_by_connect_itself', 'r matches Ok(ch) ==> !ch.svc.wraps@.lazy@ && ch.svc.wraps@.endpoint@ == endpoint')])
+         ensures=[Clause('H2_a_connected_channel_is_eager_so_its_first_failure_was_reported_by_connect_itself', 'r matches Ok(ch) ==> !ch.svc.wraps@.lazy@ && ch.svc.wraps@.endpoint@ == endpoint && ch.svc.wraps@.bound@ == connector.bound()')])
     u.close('}')
     # ---- Endpoint::connect*: the four public ways to a Channel pick eager / lazy (endpoint.rs) ----
     EP = 'tonic/src/transport/channel/endpoint.rs'
     u._emit('impl Endpoint {'); u._open_header = 'impl Endpoint {'
     eg = gen + [lambda t: t.sub_code('R12', r'Result<Channel, Error>', 'Result<Channel, Error>')]
     sb = [lambda t: t.sub_code('R17', r'uds_filepath\.as_str\(\)', 'uds_filepath.as_str()')]
+    eg2 = [e for e in eg[:2]] + [eg[3]]   # the user connector of connect_with_connector* is wrapped by Endpoint::connector first: no bound on C itself
     for name in ('connect', 'connect_with_connector'):
-        u.fn(EP, name, within='impl Endpoint', sig_edits=eg, display='Endpoint::' + name,
-             ensures=[Clause('H3_an_eager_connect_yields_only_a_channel_whose_connection_was_driven_to_readiness', 'r matches Ok(ch) ==> !ch.svc.wraps@.lazy@ && ch.svc.wraps@.endpoint@ == *self')])
+        bounded = [Clause('H5_a_connection_attempt_through_a_user_connector_is_bounded_by_the_configured_connect_timeout', 'r matches Ok(ch) ==> ch.svc.wraps@.bound@ == self.connect_timeout')] if name == 'connect_with_connector' else []
+        u.fn(EP, name, within='impl Endpoint', sig_edits=eg2, display='Endpoint::' + name,
+             ensures=[Clause('H3_an_eager_connect_yields_only_a_channel_whose_connection_was_driven_to_readiness', 'r matches Ok(ch) ==> !ch.svc.wraps@.lazy@ && ch.svc.wraps@.endpoint@ == *self')] + bounded)
     for name in ('connect_lazy', 'connect_with_connector_lazy'):
-        u.fn(EP, name, within='impl Endpoint', sig_edits=eg, display='Endpoint::' + name,
-             ensures=[Clause('H4_a_lazy_connect_yields_a_lazy_channel', 'r.svc.wraps@.lazy@ && r.svc.wraps@.endpoint@ == *self')])
+        bounded = [Clause('H6_a_connection_attempt_through_a_user_connector_is_bounded_by_the_configured_connect_timeout', 'r.svc.wraps@.bound@ == self.connect_timeout')] if name == 'connect_with_connector_lazy' else []
+        u.fn(EP, name, within='impl Endpoint', sig_edits=eg2, display='Endpoint::' + name,
+             ensures=[Clause('H4_a_lazy_connect_yields_a_lazy_channel', 'r.svc.wraps@.lazy@ && r.svc.wraps@.endpoint@ == *self')] + bounded)
     u.close('}')
     u._emit('} // mod connection')
     return u
